@@ -29,7 +29,7 @@ import random
 
 import jsonschema
 
-from harness.core import PropSpec, Result, Violation, Ctx, run_model
+from harness.core import PropSpec, Result, Violation, Ctx, run_model, CORPUS
 
 from bobocep.cep.engine.receiver.validator import (BoboValidatorAll, BoboValidatorJSONable, BoboValidatorType,
                                                    BoboValidatorJSONSchema)
@@ -304,6 +304,7 @@ def documented(cls, value, d_ok, schema, types, subtype):
 
 def verdict_cases(res, vals, vlist, lines, impl_out, only=None):
     ser_cache = {}
+    first = []      # clause (1) violations, reported ahead of the others
     for (vlabel, cls, valline, v, schema, types, subtype) in vlist:
         lines.append(valline)
         impl_out.append('ok')
@@ -347,11 +348,14 @@ def verdict_cases(res, vals, vlist, lines, impl_out, only=None):
             # (1) same verdict wrapped / bare
             for w in WRAPS[1:]:
                 if verdicts[w] != verdicts['b']:
-                    res.violations.insert(0, Violation(
+                    first.append(Violation(
                         f'verdict-differs-wrapped:{cls}',
                         f"{vlabel}: bare {label!r} -> {verdicts['b']}, wrapped in event kind {w!r} -> {verdicts[w]}",
                         {'kind': 'verdict', 'validator': vlabel, 'value': label, 'wrap': w}))
                     break
+    k = getattr(res, '_c1', 0)          # clause (1) violations stay in discovery order, ahead of the others
+    res.violations[k:k] = first
+    res._c1 = k + len(first)
 
 
 # --------------------------------------------------------------------------
@@ -441,7 +445,14 @@ def gate_case(res, vals, ventry, ops, max_size, lines, impl_out, case):
                 res.count('gate_queue_full')
         elif op[0] == 'upd':
             n0 = len(rec.seen)
-            ret = r.update()
+            try:
+                ret = r.update()
+            except Exception as e:  # noqa  -- a validator that raises takes the engine's update loop down with it
+                res.violations.append(Violation(f'receiver-update-raises:{cls}',
+                                                f"{vlabel}: BoboReceiver.update() raised {e.__class__.__name__} on a queued item", case))
+                lines.append('upd')
+                impl_out.append('raise:' + e.__class__.__name__)
+                return
             new = rec.seen[n0:]
             if not closed and queued:
                 obj, value, w = queued.pop(0)
@@ -501,7 +512,7 @@ def run_gate(res, ctx, vals, vlist, lines, impl_out, vseed, only=None):
     # the heavy values make no difference to the gate; keep the stream light
     light = [i for i, (lab, _) in enumerate(vals) if not lab.startswith('deep_')]
     n = 0
-    per = 6 if ctx.thorough else 2
+    per = 10 if ctx.thorough else 2
     for vi, ventry in enumerate(vlist):
         for k in range(per):
             ops = gate_script(rng, len(light), rng.randint(8, 40))
@@ -580,9 +591,15 @@ def run(ctx: Ctx) -> Result:
         vseed = ctx.replay['replay'].get('vseed', 0)
     else:
         vseed = ctx.rng.getrandbits(32)
-    vals = all_values(vseed, 120 if ctx.thorough else 30)
+    vals = all_values(vseed, 300 if ctx.thorough else 30)
     vlist = validators()
     lines, impl_out = [], []
+    if only is None:
+        # corpus first (witnesses of past findings)
+        for f in sorted((CORPUS / 'C18').glob('*.json')):
+            for c in json.loads(f.read_text())['cases']:
+                verdict_cases(res, vals, vlist, lines, impl_out, c)
+                res.count('corpus_cases')
     if only is None or only.get('kind') == 'verdict':
         verdict_cases(res, vals, vlist, lines, impl_out, only)
     if only is None or only.get('kind') == 'gate':
@@ -628,9 +645,9 @@ SPEC = PropSpec(
     run=run,
     search=search,
     rule='~65 hand-picked values (JSON; lossy-JSON: NaN/inf, tuples, non-string keys; non-JSON: bytes, sets, objects, '
-         'cyclic and 1000/100000-deep containers, huge ints) + 30 (quick) / 120 (thorough) seeded random JSON values, 45% of them '
+         'cyclic and 1000/100000-deep containers, huge ints) + 30 (quick) / 300 (thorough) seeded random JSON values, 45% of them '
          'with one leaf replaced by a non-JSON object; each bare and wrapped in a simple / complex / action event; against All, '
-         'JSONable, Type (8 type lists x subtype on/off) and JSONSchema (12 schemas) = 30 validator instances; plus 2 (quick) / 6 '
+         'JSONable, Type (8 type lists x subtype on/off) and JSONSchema (12 schemas) = 30 validator instances; plus 2 (quick) / 10 '
          '(thorough) random add_data/update/close scripts of 8-40 calls per validator instance on the real BoboReceiver (two recording '
          'subscribers, bounded and unbounded queue); plus a bisection for the accept boundary of nesting depth. A case = '
          '(validator instance, value, wrapping) or one receiver script; every case is non-trivial.',
